@@ -9,7 +9,7 @@ from litex.soc.cores.spi.spi_slave import SPISlave
 
 from lib.collect import rng_for
 from lib.bench.kernel import Bench
-from props.c19lib import Tracer, Viol, Stopper, Forcer
+from props.c19lib import Tracer, Viol, Forcer
 
 RESP_BITS = 64
 
@@ -359,7 +359,6 @@ def master_case(col, case):
         col.cov("spi_start_phases", "%d:%d" % ph)
     for lat in mon.latencies:
         col.cov("spi_cs_latency", lat)
-    keyfix = None
     if not agents_done and not mon.stuck and not viol:
         col.inconc(case, "cycle cap %d reached without a stuck verdict (%d/%d transfers)" % (cap, len(mon.transfers), len(plan)))
     if kind == "divchange":
